@@ -121,21 +121,22 @@ def hygiene_scan():
     return hits
 
 
-def static_check(pid, tier, deps_artefacts=None):
+def static_check(pid, tier, deps_artefacts=None, props_module=None, props_path=None):
     """translator + lake build of the property's theorem file + axiom audit"""
     s = Static()
+    props_module = props_module or f"B3.Props.{pid}"
     tr = run_translator()
     s.spans = tr.get("spans", [])
     for b in tr.get("broken", []):
         if deps_artefacts is None or b.get("artefact") in deps_artefacts or b.get("artefact") == "translator":
             s.translation_broken.append(b)
-    pf = props_file(pid)
+    pf = os.path.join(LEAN_DIR, props_path) if props_path else props_file(pid)
     with open(pf, encoding="utf-8") as f:
         text = strip_lean_comments(f.read())
     ns = re.search(r"^namespace\s+(\S+)", text, flags=re.M)
     prefix = (ns.group(1) + ".") if ns else ""
     s.theorems = [prefix + m.group(1) for m in re.finditer(r"^theorem\s+(\S+)", text, flags=re.M)]
-    rc, out = run(["lake", "build", f"B3.Props.{pid}", "driver"], cwd=LEAN_DIR, timeout=3600)
+    rc, out = run(["lake", "build", props_module, "driver"], cwd=LEAN_DIR, timeout=3600)
     s.build_log = out
     if rc != 0:
         s.build_ok = False
@@ -144,7 +145,7 @@ def static_check(pid, tier, deps_artefacts=None):
         return s
     # axiom audit: a generated file that imports the theorem file and prints the axioms of every theorem
     with tempfile.NamedTemporaryFile("w", suffix=".lean", dir=LEAN_DIR, delete=False) as tf:
-        tf.write(f"import B3.Props.{pid}\n")
+        tf.write(f"import {props_module}\n")
         for t in s.theorems:
             tf.write(f"#print axioms {t}\n")
         tmp = tf.name
@@ -167,7 +168,7 @@ def static_check(pid, tier, deps_artefacts=None):
         s.build_log += "\n" + out[-3000:]
     s.hygiene_hits = hygiene_scan()
     if tier == "thorough":
-        rc, out = run(["lake", "env", "leanchecker", f"B3.Props.{pid}"], cwd=LEAN_DIR, timeout=3600)
+        rc, out = run(["lake", "env", "leanchecker", props_module], cwd=LEAN_DIR, timeout=3600)
         s.leanchecker = (rc == 0)
         if rc != 0:
             s.build_ok = False
@@ -197,6 +198,22 @@ def build_rs(features=()):
     exe = os.path.join(target, "release", "b3-verif-harness")
     _built[key] = (rc == 0, exe, out)
     return _built[key]
+
+
+def build_c():
+    if "c" in _built:
+        return _built["c"]
+    rc, out = run(["make", "-C", C_DIR, "-j16"], timeout=3600)
+    _built["c"] = (rc == 0, os.path.join(C_DIR, "build", "cdriver"), out)
+    return _built["c"]
+
+
+def build_b3sum():
+    if "b3sum" in _built:
+        return _built["b3sum"]
+    rc, out = run(["cargo", "build", "--release", "--offline"], cwd=B3SUM_DIR, timeout=3600)
+    _built["b3sum"] = (rc == 0, os.path.join(B3SUM_DIR, "target", "release", "b3sum-driver"), out)
+    return _built["b3sum"]
 
 
 def build_lean_driver():
@@ -247,7 +264,7 @@ def canon(s):
     return s.strip()
 
 
-def compare_outputs(scripts, impl_out, lean_out, impl_name, normalize=None):
+def compare_outputs(scripts, impl_out, lean_out, impl_name, normalize=None, oracle=None):
     """walk the concatenated outputs script by script; returns list of Mismatch (first per script)"""
     res = []
     pos = 0
@@ -268,6 +285,19 @@ def compare_outputs(scripts, impl_out, lean_out, impl_name, normalize=None):
             else:
                 model, spec = lo[i], "-"
             model, spec = canon(model), canon(spec)
+            if oracle and spec == "-":
+                # property-level oracle supplied by the generator module: returns the required output,
+                # a predicate on the output, or None
+                exp = oracle(sc.ops[i])
+                if callable(exp):
+                    if not exp(impl):
+                        res.append(Mismatch("impl-vs-spec", sc, i, impl, model, "<oracle predicate of " + sc.ops[i][:60] + ">", impl_name))
+                        break
+                    if not exp(model):
+                        res.append(Mismatch("model-vs-spec", sc, i, impl, model, "<oracle predicate>", impl_name))
+                        break
+                elif exp is not None:
+                    spec = exp
             if impl == "unsupported":
                 break  # platform not available on this CPU: the rest of the script is meaningless
             if model == "bad-op" or impl == "bad-op":
@@ -287,7 +317,7 @@ def compare_outputs(scripts, impl_out, lean_out, impl_name, normalize=None):
     return res
 
 
-def run_pair(scripts, impl_exe, lean_exe, impl_name, normalize=None, chunk=400):
+def run_pair(scripts, impl_exe, lean_exe, impl_name, normalize=None, chunk=400, oracle=None):
     """run all scripts through both drivers (in chunks, so one crash loses little)"""
     mism = []
     for a in range(0, len(scripts), chunk):
@@ -303,7 +333,7 @@ def run_pair(scripts, impl_exe, lean_exe, impl_name, normalize=None, chunk=400):
         if rc1 != 0 and len(o1) < len(lines):
             # implementation driver died (abort, segfault): locate the script
             pass
-        mism += compare_outputs(part, o1, o2, impl_name, normalize)
+        mism += compare_outputs(part, o1, o2, impl_name, normalize, oracle)
     return mism
 
 
@@ -354,7 +384,7 @@ def shrink_numbers(ops, still_fails):
     return ops
 
 
-def minimise(m, impl_exe, lean_exe, normalize=None, budget=150):
+def minimise(m, impl_exe, lean_exe, normalize=None, budget=150, oracle=None):
     calls = [0]
 
     def still(ops):
@@ -363,13 +393,13 @@ def minimise(m, impl_exe, lean_exe, normalize=None, budget=150):
         calls[0] += 1
         sc = Script(ops)
         try:
-            r = run_pair([sc], impl_exe, lean_exe, m.impl_name, normalize)
+            r = run_pair([sc], impl_exe, lean_exe, m.impl_name, normalize, oracle=oracle)
         except Exception:
             return False
         return bool(r) and r[0].kind == m.kind
     ops = ddmin(m.script, still)
     ops = shrink_numbers(ops, still)
-    r = run_pair([Script(ops)], impl_exe, lean_exe, m.impl_name, normalize)
+    r = run_pair([Script(ops)], impl_exe, lean_exe, m.impl_name, normalize, oracle=oracle)
     if r:
         return r[0]
     return m
